@@ -12,7 +12,7 @@ RULE = ("same lattice as C04 with value palettes per attribute kind (ints at cod
         "max, subnormal, numpy scalars; ASCII lengths 0..300; IDENT up to 255; aware/naive datetimes and both string "
         "formats; enum members and free strings; references) x assignment route {keyword, dict, AttrSetup, later "
         ".value/.units, set_attributes}; plus, per attribute, a chain write -> re-assign to every value option in turn -> "
-        "write, each file compared with the model; non-trivial = file written and every object of the logical file compared "
+        "write, each file compared with the model; plus a channel inside a frame with data (user DIMENSION / ELEMENT-LIMIT vs the values derived at write time, full product over width, source, topology); non-trivial = file written and every object of the logical file compared "
         "attribute by attribute with the model")
 ASSUMPTIONS = ["strict reader mc/rp66.py", "reference model mc/model.py and schema mc/schema.py (labels, kinds, fixed "
                "codes from RP66 V1 ch.5/6)", "units of a value-less attribute are not required in the file",
@@ -21,7 +21,7 @@ ASSUMPTIONS = ["strict reader mc/rp66.py", "reference model mc/model.py and sche
 
 def shards(tier):
     return [{'kind': k, 'mode': m} for k in KINDS for m in ('full', 'bare')] + \
-        [{'kind': k, 'mode': 'rank2'} for k in lattice.RANK2_KINDS]
+        [{'kind': k, 'mode': 'rank2'} for k in lattice.RANK2_KINDS] + [{'kind': 'channel', 'mode': 'in-frame'}]
 
 
 def bound(tier, shard):
@@ -76,7 +76,37 @@ def reassign_chain(sp, info, shard, kw):
     return Outcome(f"reassigned:{min(n_ok, 5)}", viol, n_ok > 0, digest=str(n_ok))
 
 
+def in_frame(ctx):
+    """A channel that is part of a frame and has data: DIMENSION and ELEMENT-LIMIT assigned by the user (consistent with
+    the data) meet the values derived from the data at write time; what the user assigned must win."""
+    from mc.props import c08
+    c = {'dtype': ctx.choose('dtype', ['float64', 'uint8'], free=True),
+         'topo': ctx.choose('topo', ['plain', 'shared', 'three'], free=True),
+         'width': ctx.choose('width', ['s', 1, 3], free=True), 'cast': None,
+         'dim': ctx.choose('dimension', ['unset', 'equal'], free=True),
+         'el': ctx.choose('element-limit', ['unset', 'equal', 'larger', 'moredims'], free=True),
+         'src': ctx.choose('src', ['inline', 'dict', 'struct', 'h5'], free=True)}
+    if c['el'] == 'smaller' and c['width'] not in ('s', 1):
+        return Outcome('n/a', [], False)
+    sp = c08.make_spec(c)
+    res = S.run_spec(sp)
+    if res['failed_at'] is not None or res['write'] != 'ok':
+        why = res['status'][-1] if res['failed_at'] is not None else res['write']
+        return Outcome('raised', [("C05:in-frame:raised-on-consistent", f"{why} | {c}")], True, digest=why[:40])
+    viol = []
+    try:
+        lfs = R.split_logical_files(R.parse_physical(res['data']))
+        m = M.Model(sp)
+        for code, d in M.check_inventory(m, m.lfs[0], lfs[0]) + M.check_attrs(m, m.lfs[0], lfs[0]):
+            viol.append((f"C05:in-frame:{code}", f"{d[:300]} | {c}"))
+    except R.FormatError as e:
+        viol.append((f"C05:unparsable:{e.code}", f"{e} | {c}"))
+    return Outcome(f"ok:in-frame:{c['el']}", viol, True, digest=sha(res['data']))
+
+
 def body(ctx, shard):
+    if shard['mode'] == 'in-frame':
+        return in_frame(ctx)
     sp, info = lattice.build_spec(shard['kind'], shard['mode'], ctx, 'quick')
     cand = [ad.kw for ad in lattice.settable(shard['kind']) if ad.kw in info['assigned']
             and not (shard['kind'] == 'frame' and ad.kw == 'channels')
